@@ -7,7 +7,7 @@ from pyvc.core import ctx
 from pyvc.inline import inline
 from . import exprs
 from .exprs import T, C, V, VL, MZ, MR, fresh_expr, as_tuple, lemmas_for, ground_for, is_any, PRODS
-from .pmbl_model import pmbl
+from .pmbl_model import pmbl, use_ops, op_axioms
 from .loki_expr_model import sym
 
 F = 'loki/expression/symbolic.py'
@@ -28,6 +28,17 @@ def value_contract(name, mode):
     return stub
 
 
+def mk_decode(fname, mode):
+    def decode(env, m, r):
+        out = {'function': fname, 'mode': mode.m, 'expr': exprs.decode_expr(m, env['expr'].t)}
+        mp = env.get('mapper')
+        if mp is not None:
+            out['flags'] = [k for k in FLAGS if z3.is_true(m.eval(mp.enabled_simplifications.bits[k],
+                                                                  model_completion=True))]
+        return out
+    return decode
+
+
 def spec_is_minus_prefix(mode):
     def setup(spec):
         e = fresh_expr('expr')
@@ -46,6 +57,7 @@ def spec_is_minus_prefix(mode):
                                    z3.Or(VL.hd(ch) == V.VInt(-1), VL.hd(ch) == V.VReal(-1)))),
         ]
     return FunctionSpec(PROP, F, 'is_minus_prefix', G, setup, post, variant=mode.m, theory=T,
+                        decode=mk_decode('is_minus_prefix', mode),
                         lemmas=lemmas_for(mode), ground=ground_for(mode))
 
 
@@ -64,6 +76,7 @@ def spec_strip_minus_prefix(mode):
             return [('only-if-not-prefixed', z3.BoolVal(True))]
         return None
     return FunctionSpec(PROP, F, 'strip_minus_prefix', G, setup, post, raises=raises, variant=mode.m, theory=T,
+                        decode=mk_decode('strip_minus_prefix', mode),
                         lemmas=lemmas_for(mode), ground=ground_for(mode))
 
 
@@ -86,6 +99,7 @@ def spec_flatten_expr(mode):
     def post(env, r):
         return [('value', mode.val(T.lift(r)) == mode.val(env['expr'].t)), ('wf', mode.wf(T.lift(r)))]
     return FunctionSpec(PROP, F, 'flatten_expr', g, setup, post, invariants={1: inv}, variant=mode.m, theory=T,
+                        decode=mk_decode('flatten_expr', mode),
                         lemmas=lemmas_for(mode), ground=ground_for(mode))
 
 
@@ -163,7 +177,8 @@ def _nary_spec(method, classes, mode, fold):
         e = T.fresh_obj('expr')
         c.assume(is_any(e.t, classes))
         c.assume(mode.wf(e.t))
-        return (MapperModel(mode), e), {}, {'expr': e}
+        mp = MapperModel(mode)
+        return (mp, e), {}, {'expr': e, 'mapper': mp}
 
     def hook(vc, f, x, cond_t, elt_t, seq, res):
         comp_lemma('rec-children', seq.t,
@@ -172,6 +187,7 @@ def _nary_spec(method, classes, mode, fold):
     def post(env, r):
         return [('value', mode.val(T.lift(r)) == mode.val(env['expr'].t)), ('wf', mode.wf(T.lift(r)))]
     return FunctionSpec(PROP, F, 'SimplifyMapper.' + method, mapper_globals(mode), setup, post,
+                        decode=mk_decode('SimplifyMapper.' + method, mode),
                         comp_hooks={1: hook}, variant=mode.m, theory=T, lemmas=mapper_lemmas(mode),
                         ground=mapper_ground(mode))
 
@@ -190,11 +206,13 @@ def spec_map_quotient(mode):
         e = T.fresh_obj('expr')
         c.assume(is_any(e.t, ('Quotient', 'ParenthesisedDiv')))
         c.assume(mode.wf(e.t))
-        return (MapperModel(mode), e), {}, {'expr': e}
+        mp = MapperModel(mode)
+        return (mp, e), {}, {'expr': e, 'mapper': mp}
 
     def post(env, r):
         return [('value', mode.val(T.lift(r)) == mode.val(env['expr'].t)), ('wf', mode.wf(T.lift(r)))]
     return FunctionSpec(PROP, F, 'SimplifyMapper.map_quotient', mapper_globals(mode), setup, post,
+                        decode=mk_decode('SimplifyMapper.map_quotient', mode),
                         variant=mode.m, theory=T, lemmas=mapper_lemmas(mode), ground=mapper_ground(mode))
 
 
@@ -204,17 +222,171 @@ def spec_map_power(mode):
         e = T.fresh_obj('expr')
         c.assume(is_any(e.t, ('Power', 'ParenthesisedPow')))
         c.assume(mode.wf(e.t))
-        return (MapperModel(mode), e), {}, {'expr': e}
+        mp = MapperModel(mode)
+        return (mp, e), {}, {'expr': e, 'mapper': mp}
 
     def post(env, r):
         return [('value', mode.val(T.lift(r)) == mode.val(env['expr'].t)), ('wf', mode.wf(T.lift(r)))]
     return FunctionSpec(PROP, F, 'SimplifyMapper.map_power', mapper_globals(mode), setup, post,
+                        decode=mk_decode('SimplifyMapper.map_power', mode),
                         variant=mode.m, theory=T, lemmas=mapper_lemmas(mode), ground=mapper_ground(mode))
+
+
+def with_ops(spec, kind, mode):
+    """select how pymbolic's arithmetic overloads are treated in this spec: 'inline' = executed from the real
+    pymbolic source, 'contract' = replaced by their contracts (verified in the pymbolic:: specs)"""
+    inner = spec.setup
+
+    def setup(sp):
+        use_ops(kind, mode)
+        return inner(sp)
+    spec.setup = setup
+    if kind == 'contract':
+        spec.lemmas = list(spec.lemmas) + op_axioms(mode)
+        g0 = spec.ground
+        from pyvc.core import ground_instances
+        spec.ground = lambda terms: (g0(terms) if g0 else []) + ground_instances(op_axioms(mode), terms)
+    spec.interp = exprs.arith.interp
+    spec.hints = lambda terms: exprs.arith.hints(mode.m, terms)
+    spec.notes.append('pymbolic arithmetic overloads: ' + kind)
+    return spec
 
 
 def specs(tier='quick'):       # pylint: disable=function-redefined
     out = []
     for mode in (MZ, MR):
-        out += [spec_is_minus_prefix(mode), spec_strip_minus_prefix(mode), spec_flatten_expr(mode),
-                spec_map_sum(mode), spec_map_product(mode), spec_map_quotient(mode), spec_map_power(mode)]
+        out += [with_ops(s, 'inline', mode) for s in (
+            spec_is_minus_prefix(mode), spec_strip_minus_prefix(mode), spec_flatten_expr(mode),
+            spec_map_sum(mode), spec_map_product(mode), spec_map_quotient(mode), spec_map_power(mode))]
     return out
+
+
+# ---- bounded stand-ins (never counted as proved) -----------------------------------------------------
+BOUNDED_FUNCS = ('sum_literals', 'mul_literals', 'div_literals', 'separate_coefficients (through mul_literals/'
+                 'div_literals)', 'accumulate_polynomial_terms + collect_coefficients', 'distribute_product',
+                 'distribute_quotient', 'simplify (composition, per flag subset)')
+
+
+def bounded_checks(tier, seed):
+    import json
+    import os
+    import subprocess
+    root = os.path.dirname(os.path.dirname(os.path.abspath(__file__)))
+    repo = os.environ.get('LOKI_REPO', '/repo')
+    p = subprocess.run([os.environ.get('LOKI_PYTHON', '/venv/bin/python'), os.path.join(root, 'bounded', 'C08_native.py'),
+                        tier, str(seed)], capture_output=True, text=True, timeout=7200,
+                       env=dict(os.environ, PYTHONPATH=repo), cwd=repo)
+    line = next((l for l in p.stdout.splitlines() if l.startswith('{')), None)
+    if line is None:
+        return [{'name': 'bounded/driver', 'cases': 0, 'violation': False, 'error': p.stderr[-600:],
+                 'rule': 'native enumeration driver failed to run'}]
+    data = json.loads(line)
+    rule = ('all expression trees of depth<=2 (quick: all of depth<=1 plus a 1-in-7 slice of depth 2; thorough: all '
+            'plus 3000 seeded random trees of depth 3) over leaves {a,b,0,1,2,3,-1}; value compared under 16 '
+            'valuations in exact arithmetic (Fraction / truncating integer division); distinct = output differs '
+            'from input')
+    out = []
+    for r in data['results']:
+        fn = r['function']
+        base = {'cases': r['cases'], 'distinct': r['distinct'], 'rule': rule, 'bound': 'depth<=2 (+random depth 3)'}
+        out.append(dict(base, name='bounded/%s[R]' % fn, violation=bool(r['violationsR']),
+                        cex=(dict(r['violationsR'][0], function=fn) if r['violationsR'] else None),
+                        n_violations=r.get('n_viol_R', 0)))
+        nq = r.get('violationsZ_noquot') or []
+        out.append(dict(base, name='bounded/%s[Z-noquot]' % fn, violation=bool(nq),
+                        cex=(dict(nq[0], function=fn) if nq else None), n_violations=r.get('n_viol_Z_noquot', 0)))
+        zq = [v for v in r['violationsZ'] if v.get('has_quotient')]
+        out.append(dict(base, name='bounded/%s[Z-quot]' % fn, violation=bool(zq),
+                        cex=(dict(zq[0], function=fn) if zq else None),
+                        n_violations=r.get('n_viol_Z', 0) - r.get('n_viol_Z_noquot', 0)))
+    return out
+
+
+def lemma_proofs():
+    return exprs.lemma_proofs((MZ, MR))
+
+
+META = {
+    'category': 'other',
+    'technique': 'contract-based deductive verification (pyvc) of the simplifier core; bounded native enumeration '
+                 'for the functions whose nonlinear/comprehension-heavy bodies z3 does not discharge',
+    'level_text': 'Deductive (all inputs, all flag subsets, integer and real semantics): is_minus_prefix, '
+                  'strip_minus_prefix, flatten_expr (worklist invariant), SimplifyMapper.map_sum/map_product/'
+                  'map_quotient/map_power against the contracts of their callees; every lemma (sum/product over '
+                  'append, zero lemma, arithmetic laws) is proved by induction / on pure arithmetic on every run. '
+                  'Bounded stand-in, labelled and never counted as proved: sum_literals, mul_literals, div_literals, '
+                  'collect_coefficients, distribute_product, distribute_quotient and simplify as a whole.',
+    'level_note': 'Trusted: pyvc engine; pymbolic Mapper dispatch (rec calls map_X of the node class); contracts of '
+                  'the bounded functions are ASSUMED by the deductive part (value preserved, result well formed); '
+                  'python == on expression nodes implies equal value (C11 examines __eq__); floats as reals; power '
+                  'laws a**0=1, a**1=a, 1**b=1; termination not proved. Known finding: under integer (truncating) '
+                  'division the distribution of quotients is not value preserving.',
+    'trusted_base': [
+        'pyvc engine (CPython execution of the mechanically rewritten real function bodies, proxy classes, z3)',
+        'pymbolic 2022.2 Mapper.__call__/rec dispatch: map_<mapper_method> of the node class is invoked',
+        'ASSUMED contracts (bounded only): sum_literals, mul_literals, div_literals, collect_coefficients, '
+        'distribute_product, distribute_quotient preserve the value of a well-formed operand',
+        'ASSUMED: python == between expression nodes implies equal value (peq axiom)',
+        'LokiIdentityMapper handlers of non-arithmetic nodes (rec contract assumed for them)',
+        'value semantics val_Z / val_R of contracts/exprs.py (spec), x/0 := 0 with non-zero divisors as precondition',
+    ],
+    'assumptions': ['floating point treated as real arithmetic', 'termination not proved',
+                    'strings/kinds of literals opaque', 'integers mathematical (exact for Python int)'],
+}
+
+
+# ---- distribute_quotient ---------------------------------------------------------------------------------
+def imp_term(e):
+    """exact characterisation of is_minus_prefix (its 'exact' postcondition, proved in spec_is_minus_prefix)"""
+    ch = field(e, PRODS, 'children')
+    return z3.And(is_any(e, ('Product', 'ParenthesisedMul')), VL.is_cons(ch),
+                  z3.Or(VL.hd(ch) == V.VInt(-1), VL.hd(ch) == V.VReal(-1)))
+
+
+def is_minus_prefix_contract(expr):
+    """CONTRACT of is_minus_prefix (proved: clause 'exact')"""
+    return mk_bool(imp_term(T.lift(expr)))
+
+
+def G2(mode):
+    """globals where is_minus_prefix is used through its contract (strip_minus_prefix stays inlined)"""
+    g = dict(G)
+    g['is_minus_prefix'] = is_minus_prefix_contract
+    from pyvc.inline import inline as _inl
+    g['strip_minus_prefix'] = _inl(F, 'strip_minus_prefix', g)
+    return g
+
+
+def spec_distribute_quotient(mode):
+    g = G2(mode)
+    g['distribute_quotient'] = ValueContract('distribute_quotient', mode)      # recursive calls: IH
+
+    def setup(spec):
+        e = fresh_expr('expr')
+        ctx().assume(mode.wf(e.t))
+        return (e,), {}, {'expr': e}
+
+    def inv(L):
+        e = L['expr'].t
+        num = mode.val(field(e, QUOTS, 'numerator'))
+        den = mode.val(field(e, QUOTS, 'denominator'))
+        done, queue = T.lift_seq(L['done']), T.lift_seq(L['queue'])
+        # sum of the quotients built so far + (what is still queued) / d  ==  n / d
+        val = {'value': mode.sumv(done) + mode.div(mode.sumv(queue), den) == mode.div(num, den)}
+        val['wf'] = z3.And(mode.wfl(done), mode.wfl(queue), is_any(e, QUOTS), den != 0,
+                           mode.wf(field(e, QUOTS, 'denominator')))
+        return val
+
+    def post(env, r):
+        return [('value', mode.val(T.lift(r)) == mode.val(env['expr'].t)), ('wf', mode.wf(T.lift(r)))]
+
+    def decode(env, m, r):
+        return {'function': 'distribute_quotient', 'mode': mode.m, 'expr': exprs.decode_expr(m, env['expr'].t)}
+    lem = lemmas_for(mode) + [ValueContract('distribute_quotient', mode).axiom]
+
+    def ground(terms):
+        from pyvc.core import ground_instances
+        return ground_instances(exprs.PEQ_AXIOMS + exprs.REAL_AXIOMS + [ValueContract('distribute_quotient', mode).axiom],
+                                terms)
+    return FunctionSpec(PROP, F, 'distribute_quotient', g, setup, post, invariants={1: inv}, variant=mode.m,
+                        theory=T, lemmas=lem, ground=ground, decode=decode)
